@@ -777,7 +777,14 @@ class ConfigInformation:
 
                 config.__xpm__._sealed = True
 
-        Sealer(context, recurse_task=True)(self.pyobject)
+        sealer = Sealer(context, recurse_task=True)
+        sealer(self.pyobject)
+
+        # Initialization tasks are only known when submitting: seal them even
+        # if this configuration had already been sealed (e.g. by instance())
+        if self.init_tasks:
+            with sealer.map("__init_tasks__"):
+                sealer(self.init_tasks)
 
     def __unseal__(self):
         """Unseal this configuration and its descendant
